@@ -80,7 +80,8 @@ IncStep(S, content) ==
                ELSE IF inc.a # "" THEN LiveErr(S2, "annotation")
                ELSE [S2 EXCEPT !.cur.i = top.i + 1]
   ELSE LET tok == toks[S.cur.i] IN
-  IF tok.t = "D"
+  IF tok.t = "X" THEN LiveErr(S1, "lexical")        \* a line the scanner rejects (a NUL byte, ...): met in scan order like everything else
+  ELSE IF tok.t = "D"
   THEN IF tok.k \in Banned THEN LiveErr(S1, "notallowed")
        ELSE IF tok.k = "JSIGHT" /\ S.stack # <<>> THEN LiveErr(S1, "include-jsight")
        ELSE IF ParamFault(tok) THEN LiveErr(S1, "paramdup")      \* a second value for a named parameter, reported at scan time
